@@ -214,7 +214,7 @@ def run_property(pid: str, tier: str, seed: int, jobs: int | None = None) -> int
 
     wall = time.time() - t0
     replay_paths = []
-    rdir = os.path.join(VERIF, "replays")
+    rdir = os.environ.get("VERIF_REPLAY_DIR") or os.path.join(VERIF, "replays")
     if confirmed:
         os.makedirs(rdir, exist_ok=True)
         for i, v in enumerate(confirmed):
@@ -255,8 +255,10 @@ def run_property(pid: str, tier: str, seed: int, jobs: int | None = None) -> int
         "wall_s": round(wall, 3),
         "violations": len(confirmed),
     }
-    os.makedirs(os.path.join(VERIF, "evidence"), exist_ok=True)
-    with open(os.path.join(VERIF, "evidence", f"{pid}.json"), "w") as f:
+    # (mutation self-tests point VERIF_EVIDENCE_DIR elsewhere: evidence for a mutant is not evidence for /repo)
+    evdir = os.environ.get("VERIF_EVIDENCE_DIR") or os.path.join(VERIF, "evidence")
+    os.makedirs(evdir, exist_ok=True)
+    with open(os.path.join(evdir, f"{pid}.json"), "w") as f:
         json.dump(ev, f, indent=1, default=repr)
 
     for key, n in sorted(known_seen.items()):
